@@ -163,6 +163,8 @@ def build_harness():
 
 def props_obligations(pid):
     p = os.path.join(COQ, "theories", "Props", pid + ".v")
+    if not os.path.exists(p):
+        return []
     with open(p, encoding="utf-8") as fh:
         txt = strip_coq_comments(fh.read())
     return re.findall(r"^\s*Theorem\s+(\w+)", txt, re.M)
@@ -171,6 +173,9 @@ def props_obligations(pid):
 def check_proofs(pid):
     """Re-check Props/<id>.v (always recompiled so that Print Assumptions output is captured)."""
     names = props_obligations(pid)
+    if not names:
+        # development only: a property that is not yet claimed in MANIFEST.json has no Props file
+        return {"obligations": 0, "discharged": 0, "names": [], "axioms": [], "log": "", "ok": True}
     vo = os.path.join(COQ, "theories", "Props", pid + ".vo")
     if os.path.exists(vo):
         os.remove(vo)
@@ -201,8 +206,14 @@ def check_proofs(pid):
 # ----------------------------------------------------------------------------------------------
 # correspondence
 
+CTTRACE = os.path.join(HARNESS, "target", "release", "cttrace")
+
+
 def gen_cases(family, tier, seed, outfile):
-    rc, out = sh([GEN, family, tier, str(seed), outfile], timeout=3000)
+    if family == "c07":
+        rc, out = sh([CTTRACE, tier, str(seed), outfile], timeout=3000)
+    else:
+        rc, out = sh([GEN, family, tier, str(seed), outfile], timeout=3000)
     if rc != 0:
         raise Infra("harness generator failed (%s):\n%s" % (family, out[-3000:]))
     with open(outfile, encoding="utf-8") as fh:
@@ -217,15 +228,23 @@ def gen_cases(family, tier, seed, outfile):
 
 
 def replay_cases(input_lines, outfile):
-    lst = outfile + ".inputs"
-    with open(lst, "w", encoding="utf-8") as fh:
-        for ln in input_lines:
-            fh.write(ln + "\n")
-    rc, out = sh([GEN, "replaymany", "x", "0", outfile, lst], timeout=3000)
-    if rc != 0:
-        raise Infra("harness replay failed:\n" + out[-3000:])
-    with open(outfile, encoding="utf-8") as fh:
-        lines = [ln.rstrip("\n") for ln in fh if ln.strip()]
+    lines = []
+    for binary, sel in ((GEN, lambda l: not l.startswith("cttrace")), (CTTRACE, lambda l: l.startswith("cttrace"))):
+        mine = [ln for ln in input_lines if sel(ln)]
+        if not mine:
+            continue
+        lst = outfile + ".inputs"
+        with open(lst, "w", encoding="utf-8") as fh:
+            for ln in mine:
+                fh.write(ln + "\n")
+        if binary == GEN:
+            rc, out = sh([GEN, "replaymany", "x", "0", outfile, lst], timeout=3000)
+        else:
+            rc, out = sh([CTTRACE, "replay", "x", outfile, lst], timeout=3000)
+        if rc != 0:
+            raise Infra("harness replay failed:\n" + out[-3000:])
+        with open(outfile, encoding="utf-8") as fh:
+            lines += [ln.rstrip("\n") for ln in fh if ln.strip()]
     cases = []
     for ln in lines:
         parts = ln.split("\t")
